@@ -313,6 +313,11 @@ class DictDecoder:
             # field can support any object return the value as it is
             return value
 
+        if not var.tokens and type(value) in var.types:
+            # The value already is of one of the field types, e.g. a str for
+            # a union of int and str must not be read as a number.
+            return value
+
         try:
             value = converter.serialize(value)
         except TypeError as e:
